@@ -441,9 +441,9 @@ func role(x *tc) string {
 
 func runL1(c *driver.Ctx) {
 	// payload seeds per (signal, vector, failing subset, read-only, context scenario): 96 544 cases per round
-	rounds := int64(c.N(1, 20))
+	rounds := int64(c.N(1, 16))
 	if c.Variant == "race" {
-		rounds = int64(c.N(1, 6))
+		rounds = int64(c.N(1, 5))
 	}
 	g := int64(0)
 	for round := int64(0); round < rounds; round++ {
